@@ -42,6 +42,19 @@ Proof. exact grant_flags_old_refuted. Qed.
 Theorem C40_name_parts_no_panic : forall full : str, name_parts full <> Panic.
 Proof. exact name_parts_no_panic. Qed.
 
+(* PATCH /admin/users/{name}: the permissions of the body, any list of strings (blank, whitespace-only, signs) *)
+Theorem C40_user_perms_no_panic : forall (ok : str -> bool) (perms : list str), user_perms false ok perms <> Panic.
+Proof. exact user_perms_no_panic. Qed.
+
+(* skipping only the literally empty entry and trimming before perm[0]: the entry " " panics *)
+Theorem C40_user_perms_early_trim_refuted : exists ok perms, user_perms true ok perms = Panic.
+Proof. exact user_perms_early_trim_refuted. Qed.
+
+Example C40_user_perms_nonvacuous :
+  user_perms false (fun s => str_eqb s [120]%N) [[]; [32]; [43;120]; [45;120]; [120]]%N = Ok true /\
+  user_perms false (fun s => str_eqb s [120]%N) [[32;120]]%N = Ok false.
+Proof. vm_compute. split; reflexivity. Qed.
+
 (* ---- non-vacuity *)
 Example C40_nonvacuous :
   paging [1;2;3;4;5] true true (Some (Some 1)) (Some (Some 2)) 0 0 = Ok (Some [2;3]) /\
